@@ -44,7 +44,7 @@ type w13Known struct {
 	keys map[string]bool
 	// root causes, see /verif/harness/notes/C13.md
 	shortFrame, args2flag, setexArity, appendNil, callDbid, incrNoValue, lockData, scanArity, valueOffset,
-	lessVersion, elemBounds, propWalk, errMsg12, willRecursion, ackUnheld, recoverNil, execAlloc, unlockAckPending, freeList bool
+	lessVersion, elemBounds, propWalk, errMsg12, willRecursion, ackUnheld, recoverNil, execAlloc, unlockAckPending, freeList, execTasks bool
 }
 
 var (
@@ -79,6 +79,8 @@ func w13KnownKeys() *w13Known {
 		k.unlockAckPending = k.fn("server.(*LockDB).UnLock")
 		// a connection's private free list of LockCommands (64 entries) overflows when it frees more
 		k.freeList = k.fn("server.(*BinaryServerProtocol).FreeLockCommand") || k.fn("server.(*TextServerProtocol).FreeLockCommand")
+		// the shard executor's task free list (aof_queue_size/64 entries) overflows when more tasks exist at once
+		k.execTasks = k.fn("server.(*LockDBExecutor).Run")
 		w13KnownVal = k
 	})
 	return w13KnownVal
@@ -1788,6 +1790,9 @@ func w13GenCaseVariant(t *rapid.T, st *vStat, timers bool) *w13Case {
 		conns = g.genReplyBatchCase(c)
 	} else if !timers && g.pct("shapePool", 7) {
 		conns = g.genPoolCase(c)
+	} else if !timers && g.pct("shapeFanout", 5) {
+		g.focus = true
+		conns = g.genFanoutCase(c)
 	} else if g.pct("shapeExecTight", 6) {
 		g.focus = true
 		conns = g.genExecTightCase(c)
@@ -1920,7 +1925,7 @@ func w13Classes(c *w13Case, info w13Info) (cls []string, nontrivial bool) {
 }
 
 func w13Sample(c *w13Case) interface{} {
-	cp := w13Case{}
+	cp := w13Case{Shape: c.Shape, AofQueue: c.AofQueue}
 	for _, cn := range c.Conns {
 		if len(cn.Hex) > 600 {
 			cn.Hex = cn.Hex[:600] + fmt.Sprintf("...(%d bytes)", len(cn.Hex)/2)
